@@ -78,7 +78,7 @@ def main(tier, seed):
         with ThreadPoolExecutor(max_workers=NCPU) as ex:
             res = list(ex.map(run_cli, jobs))
         # model predictions where std's verdicts are known
-        ops = []; idx = []
+        ops = []; idx = []; bad_stdin = set()
         for i, (mode, lvl, path, name, content, stdin) in enumerate(meta):
             ext_ok = ext_is_hyeong(name)
             readable = ext_ok and name != "dir.hyeong" and not name.startswith("missing")
@@ -86,12 +86,13 @@ def main(tier, seed):
             except UnicodeDecodeError: src = None
             try: sin = stdin.decode("utf-8")
             except UnicodeDecodeError: sin = None
-            if sin is None and mode == "run": continue
             srcf = enc_text(src) if src is not None else "INVALID"
             if mode == "check":
                 ops.append("m.clicheck %s %s %s %s" % (enc_text(path), enc_text(name), "1" if ext_ok else "0", srcf))
             else:
-                ops.append("m.clirun %d %s %s %s %s" % (lvl, enc_text(path), "1" if ext_ok else "0", srcf, enc_text(sin)))
+                # standard input goes to the model as bytes: it cuts and decodes the lines itself (a line that is not UTF-8 stops the run when read)
+                ops.append("m.clirunbytes %d %s %s %s %s" % (lvl, enc_text(path), "1" if ext_ok else "0", srcf, stdin.hex() or "-"))
+                if sin is None: bad_stdin.add(i)
             idx.append(i)
         model = dict(zip(idx, model_lines(ops, timeout=300, chunks=64)))
         stats = {"status": {}, "kinds": {"bad_extension": 0, "unreadable_or_not_utf8_file": 0, "invalid_utf8_stdin": 0, "check": 0}, "model_compared": 0, "timeouts": 0}
@@ -123,16 +124,47 @@ def main(tier, seed):
                     rep.violation("impl-vs-spec" if bad else "correspondence",
                                   {"what": "outcome differs from the model", "argv": jobs[i][0], "file": content.decode("utf-8", "replace")[:300], "stdin_hex": stdin.hex()[:200],
                                    "impl": [sot[-400:], set_[-300:], rc], "model": [mo[-400:], me[-300:], diag, st], "match_key": key})
-            else:
-                # no prediction (undecodable stdin): a status of 1 must come with a diagnostic unless the program itself exits 1
-                if mode == "run": stats["kinds"]["invalid_utf8_stdin"] += 1
+            if i in bad_stdin: stats["kinds"]["invalid_utf8_stdin"] += 1
             if len(content) > 3: rep.nontrivial(key)
         shutil.rmtree(tmp, ignore_errors=True)
+        # the model's line cutting and UTF-8 decoding of standard input against read_line (through util::io::read_line_from)
+        # on byte strings built around the edges of UTF-8: every lead byte, truncated / overlong / surrogate / too large
+        # forms, stray continuation bytes, line feeds inside and next to multi-byte characters
+        bl = [b"", b"\n", b"\n\n", b"a", b"a\n", b"\xff", b"a\xff\nb", b"a\n\xffb\n", b"\xc0\x80", b"\xc1\xbf", b"\xc2\x80", b"\xdf\xbf", b"\xe0\x80\x80", b"\xe0\x9f\xbf",
+              b"\xe0\xa0\x80", b"\xed\x9f\xbf", b"\xed\xa0\x80", b"\xed\xbf\xbf", b"\xee\x80\x80", b"\xef\xbf\xbf", b"\xf0\x80\x80\x80", b"\xf0\x8f\xbf\xbf", b"\xf0\x90\x80\x80",
+              b"\xf4\x8f\xbf\xbf", b"\xf4\x90\x80\x80", b"\xf5\x80\x80\x80", b"\xf8\x88\x80\x80\x80", b"\x80", b"\xbf", b"\xe4\xbd", b"\xe4\xbd\n", b"\xf0\x9f\x98", b"\xf0\x9f\x98\n\x80",
+              b"\xc2\n\x80", b"\xe4\n\xbd\xa0"]
+        for lead in range(0x80, 0x100):
+            bl.append(bytes([lead, 0x80, 0x80, 0x80])); bl.append(bytes([0x41, lead, 0xbf, 0x0a, 0x42]))
+        nb = 600 if tier == "quick" else 40000
+        for _ in range(nb):
+            t = rand_text(rng, rng.choice([2, 8, 30])).encode("utf-8") if rng.random() < 0.7 else bytes(rng.randrange(256) for _ in range(rng.randint(1, 12)))
+            t = bytearray(t)
+            for _ in range(rng.choice([0, 0, 1, 1, 2, 3])):
+                if not t: break
+                k = rng.randrange(len(t)); r = rng.random()
+                if r < 0.3: del t[k]
+                elif r < 0.5: t[k] = rng.choice([0x0a, 0x80, 0xbf, 0xc0, 0xc2, 0xe0, 0xed, 0xf0, 0xf4, 0xff, rng.randrange(256)])
+                elif r < 0.7: t.insert(k, rng.choice([0x0a, 0x80, 0xbf, 0xed, 0xf4, 0xff]))
+                else: t[k] ^= 1 << rng.randrange(8)
+            bl.append(bytes(t))
+        dops = ["declines " + (b.hex() or "-") for b in bl]
+        di = impl_lines(dops, timeout=300); dm = model_lines(["m." + o for o in dops], timeout=300)
+        nbad = 0
+        for o, a, m in zip(dops, di, dm):
+            if unjudged(a, m):
+                rep.count("skipped-resource-limit"); continue
+            rep.count("stdin-byte-lines")
+            if "!" in a: nbad += 1
+            if a != m:
+                rep.violation("correspondence", {"what": "lines read from a byte stream differ from the model's cutting/decoding", "op": o, "impl": a[:600], "model": m[:600]})
+            if len(o) > 20: rep.nontrivial(o)
+        stats["stdin_byte_streams"] = {"cases": len(dops), "with_an_undecodable_line": nbad}
         rep.sample({"argv": jobs[0][0], "status": res[0][2], "stderr": res[0][1].decode("utf-8", "replace")[:200]})
         rep.sample({"argv": jobs[7][0], "file_hex": meta[7][4].hex()[:120], "status": res[7][2]})
         extra = {"statistics": stats}
     else:
         extra = {}
     return rep.finish(extra, rule="files: rendered programs, random Unicode, random bytes (valid and invalid UTF-8), empty; names with/without .hyeong, wrong case, a directory, a missing file; stdin: empty, text, random bytes; run at -O0/-O1/-O2 and check; "
-                      "required: status 0 or 1, never a panic/abort/signal; where std's verdicts are known (decodable stdin) stdout/stderr/status are compared with the model; non-trivial = file longer than 3 bytes; distinct by mode/level/name kind/content/stdin",
+                      "required: status 0 or 1, never a panic/abort/signal; stdout/stderr/status are compared with the model for every run, standard input given to the model as bytes (it cuts and decodes the lines itself; a line that is not UTF-8 stops the run with a diagnostic when the program reads it); non-trivial = file longer than 3 bytes; distinct by mode/level/name kind/content/stdin",
                       assumptions=["clap argument parsing, termcolor, std I/O and the native stack are trusted", "runs that exceed the time limit (non-terminating programs) are not judged", "area nesting bounded as in C04"])
